@@ -126,7 +126,7 @@ def zero_like(x):
 
 def make_step(mk, M=1, kind='full', sweeper=('pySDC/implementations/sweeper_classes/generic_implicit.py', 'generic_implicit'),
               level_params=None, step_params=None, sweeper_params=None, nlevels=1, name='S', symbolic_level=True,
-              space_transfer=None, Ms=None, base_transfer_params=None):
+              space_transfer=None, Ms=None, base_transfer_params=None, base_transfer_class=None):
     """a real Step (real Levels, real sweepers) over the ghost problem; scalar leaves from the maker"""
     from pySDC.core.step import Step
 
@@ -145,6 +145,8 @@ def make_step(mk, M=1, kind='full', sweeper=('pySDC/implementations/sweeper_clas
         d['space_transfer_class'] = space_transfer
         if base_transfer_params:
             d['base_transfer_params'] = base_transfer_params
+        if base_transfer_class is not None:
+            d['base_transfer_class'] = base_transfer_class
     S = Step(d)
     if symbolic_level:
         for l, L in enumerate(S.levels):
